@@ -212,8 +212,52 @@ def gen_edits(r, doc):
     return edits
 
 
+def aliascall_case(r):
+    """The edited set is the argument of a call, given by a name that an outer let binds; an inner let re-binds the name the
+    set's value refers to.  The reference `x = v` belongs to the layer where the set is written."""
+    b = r.randrange(1, 9) * 100
+    v1, v2, new = b + 1, b + 2, b + 9
+    call = r.choice(["f args", "f a args", "mk args", "(f) args", "lib.id args"])
+    outer = [f"  v = {v1};", "  args = {", "    x = v;", "    y = 1;", "  };"]
+    if r.random() < 0.5:
+        outer = outer[1:] + outer[:1]
+    lines = ["let"] + outer + ["in"]
+    for i in range(r.choice([1, 1, 2])):
+        lines += ["let", f"  v = {v2 + 10 * i};"] + (["  unrelated = v;"] if r.random() < 0.3 else []) + ["in"]
+    lines.append(call)
+    text = "\n".join(lines) + "\n"
+    want = text.replace(f"  v = {v1};", f"  v = {new};")
+    return {"raw": {"text": text, "path": "x", "value": str(new), "want": want, "via": r.choice(["api", "api", "cli"]), "prime": r.random() < 0.3}}
+
+
+def judge_raw(raw):
+    nima.reset_state()
+    try:
+        src = nima.parse(raw["text"])
+        if raw.get("prime"):
+            try:
+                src[raw["path"]].value  # an earlier lookup on the same object
+            except Exception:  # noqa: BLE001
+                pass
+        if raw.get("via", "cli") == "cli":
+            out = nima.set_value(src, raw["path"], raw["value"])
+        else:
+            src[raw["path"]].value = int(raw["value"])
+            out = src.rebuild()
+    except nima.ResolutionError:
+        return []  # an explicit failure is allowed by the statement
+    except Exception as e:  # noqa: BLE001
+        return [(f"raises:{type(e).__name__}|{raw.get('via', 'cli')}|raw", {"text": raw["text"][:300]})]
+    if cst.norm_token_keys(out) != cst.norm_token_keys(raw["want"]):
+        return [(f"wrong-binding-updated|{raw.get('via', 'cli')}|raw", {"out": out[:300], "want": raw["want"][:300]})]
+    return []
+
+
+
 def replay(case):
     if "raw" in case:
+        if "via" in case["raw"]:
+            return judge_raw(case["raw"])
         raw = case["raw"]
         nima.reset_state()
         try:
@@ -247,6 +291,13 @@ def run_shard(sh):
             return
         sh.now(n)
         r = random.Random(n)
+        if n % 12 == 0:
+            case = aliascall_case(r)
+            fl = judge_raw(case["raw"])
+            sh.record(case, True, ["alias-call", "via:" + case["raw"]["via"]])
+            for k, dd in fl:
+                sh.fail(k + "|alias-call", case, dd)
+            return
         g = S.Gen(n, **kw)
         d = g.doc()
         edits = gen_edits(r, d)
